@@ -114,6 +114,35 @@ func panicJustification(p *core.Prog, fn *ssa.Function) string {
 	if reg := registryType(p); reg != nil && fn.Signature.Recv() != nil && core.NamedOf(fn.Signature.Recv().Type()) == reg.Obj().Name() && fn.Name() == "RegisterService" {
 		return "C15 contract: refusing an ill-typed or duplicate registration panics (like grpc.Server)"
 	}
+	// a private helper whose only callers are such justified functions shares their justification (the
+	// refusal moved into a helper)
+	if fn.Parent() == nil && fn.Object() != nil && !fn.Object().Exported() {
+		callers := map[*ssa.Function]bool{}
+		for _, g := range p.LibFuncs("") {
+			core.Instrs(g, func(in ssa.Instruction) {
+				if cc := core.CallOf(in); cc != nil && cc.StaticCallee() == fn {
+					callers[g] = true
+				}
+			})
+		}
+		if len(callers) > 0 {
+			all, why := true, ""
+			for g := range callers {
+				if g == fn {
+					all = false
+					continue
+				}
+				j := panicJustification(p, g)
+				if j == "" {
+					all = false
+				}
+				why = j
+			}
+			if all {
+				return why + " (in a helper called only from there)"
+			}
+		}
+	}
 	if fn.Signature.Recv() != nil && fn.Name() == "RecvMsg" {
 		return "RecvMsg sanity check 'message channel closed but done == false': discharged by the invariant done=true must-precedes close under the lock in the only closer"
 	}
